@@ -20,6 +20,7 @@ func genCase(t *rapid.T) Case {
 	c.Auth.FailTrue = rapid.Bool().Draw(t, "validator-fails-with-true")
 	c.Auth.NilCtx = rapid.IntRange(0, 2).Draw(t, "validator-returns-nil-context") == 0
 	c.Neighbour = rapid.SampledFrom([]string{"", "", "", "before", "between", "between"}).Draw(t, "neighbour")
+	c.ViaFields = rapid.IntRange(0, 3).Draw(t, "via-fields") == 0
 	c.NMW = rapid.IntRange(0, 3).Draw(t, "nmw")
 	c.OptSeed = rapid.IntRange(0, 1000).Draw(t, "option-order")
 	c.Term = rapid.Bool().Draw(t, "term")
